@@ -40,6 +40,22 @@ class Node:
     pass
 
 
+class RefCoder(build.Coder):
+    """sends also carry ref=REF, an object of the sender's context that compares by identity"""
+
+    def _with_ref(self, code):
+        return code.replace('u=U()', 'u=U(), ref=REF')
+
+    def entry(self, ch, n):
+        return self._with_ref(build.Coder.entry(self, ch, n))
+
+    def exit(self, ch, n):
+        return self._with_ref(build.Coder.exit(self, ch, n))
+
+    def action(self, ch, t):
+        return self._with_ref(build.Coder.action(self, ch, t))
+
+
 def run_case(acc, rnd, tier, case):
     if case % 12 == 11:
         from .. import threaded
@@ -53,9 +69,10 @@ def run_case(acc, rnd, tier, case):
         nd.i = i
         nd.ch = gen_chart(rnd, mode=rnd.choice((None, 'orth', 'queue')), p_send=0.7, p_state_send=0.35, p_notify=0.3,
                           p_final=0.4, p_eventless=0.15, **T['gen'])
-        nd.sc, nd.tmap = build.build_api(nd.ch)
+        nd.sc, nd.tmap = build.build_api(nd.ch, coder=RefCoder())
         nd.pr = Probes(val=make_val(rnd.random(), rnd.choice((0.6, 0.9, 1.0))), first_uid=100000 * (i + 1))
-        nd.it = Interpreter(nd.sc, initial_context=nd.pr.context())
+        nd.ref = object()       # a parameter that only compares equal to itself (e.g. a reply mailbox)
+        nd.it = Interpreter(nd.sc, initial_context=nd.pr.context(REF=nd.ref))
         nd.bindings = []        # model: ordered list of [handle, target id]
         nd.sent = {}            # uid -> name of internal events this node sent
         nd.consumed = Counter()
@@ -93,6 +110,19 @@ def run_case(acc, rnd, tier, case):
 
     callables = {}
 
+    class Dispatcher:
+        """A callable target that also happens to have an (unrelated) callable attribute called queue."""
+
+        def __init__(self, k):
+            self.k = k
+
+        def __call__(self, ev):
+            dlog.append((('cb', self.k), type(ev).__name__, ev.name, dict(ev.data)))
+            run_hooks(('cb', self.k))
+
+        def queue(self, job):
+            dlog.append((('cb', self.k), 'WRONG-ENTRY-POINT', getattr(job, 'name', None), {}))
+
     class Relay:
         """A target given as a bound method of an object nobody else refers to (sender.bind(Relay(k).forward))."""
 
@@ -110,6 +140,8 @@ def run_case(acc, rnd, tier, case):
     def make_cb(k):
         if k % 2 == 1:
             return 'relay'      # created afresh at every bind(): the binding is the only reference to the object
+        if k == 2:
+            return Dispatcher(k)
         def cb(ev):
             dlog.append((('cb', k), type(ev).__name__, ev.name, dict(ev.data)))
             run_hooks(('cb', k))
